@@ -1703,8 +1703,8 @@ class PyCdlib:
 
         self._needs_reshuffle = False
 
-    def _add_child_to_dr(self, child):
-        # type: (dr.DirectoryRecord) -> int
+    def _add_child_to_dr(self, child, allow_duplicate=False):
+        # type: (dr.DirectoryRecord, bool) -> int
         """
         An internal method to add a child to a directory record, expanding the
         space in the Volume Descriptor(s) if necessary.
@@ -1717,21 +1717,12 @@ class PyCdlib:
         if child.parent is None:
             raise pycdlibexception.PyCdlibInternalError('Trying to add child without a parent')
 
-        try_long_entry = False
-        try:
-            ret = child.parent.add_child(child, self.logical_block_size)
-        except pycdlibexception.PyCdlibInvalidInput:
-            # dir_record.add_child() may throw a PyCdlibInvalidInput if it was
-            # given a duplicate child.  However, we allow duplicate children if
-            # and only the last child is the same; this represents a very large
-            # file.
-            if not child.is_dir():
-                try_long_entry = True
-            else:
-                raise
-
-        if try_long_entry:
-            ret = child.parent.add_child(child, self.logical_block_size, True)
+        # dir_record.add_child() throws a PyCdlibInvalidInput if it is given a
+        # duplicate child.  We allow a duplicate child only when the caller
+        # says that this record continues the previous one; this represents a
+        # very large file.
+        ret = child.parent.add_child(child, self.logical_block_size,
+                                     allow_duplicate and not child.is_dir())
 
         # The add_child() method returns True if the parent needs another extent
         # in order to fit the directory record for this child.
@@ -3102,8 +3093,8 @@ class PyCdlib:
             self._needs_reshuffle = True
 
     def _add_hard_link_to_inode(self, data_ino, length, file_mode,
-                                boot_catalog_old, **kwargs):
-        # type: (Optional[inode.Inode], int, int, bool, Optional[str]) -> int
+                                boot_catalog_old, continuation, **kwargs):
+        # type: (Optional[inode.Inode], int, int, bool, bool, Optional[str]) -> int
         """
         Add a hard link to the ISO.  Hard links are alternate names for the
         same file contents that don't take up any additional space on the ISO.
@@ -3118,6 +3109,8 @@ class PyCdlib:
          length - The length of the old record to link against.
          file_mode - The file mode of the old record to link against.
          boot_catalog_old - Whether this is a link to an old boot catalog.
+         continuation - Whether this record continues the previous record of
+                        the same name (a file with more than one extent).
          iso_new_path - The new path on the ISO9660 filesystem to link to.
          joliet_new_path - The new path on the Joliet filesystem to link to.
          rr_name - The Rock Ridge name to use for the new file if this is a
@@ -3186,7 +3179,7 @@ class PyCdlib:
                              vd.sequence_number(), rr, rr_name, xa, file_mode,
                              time.time())
 
-            num_bytes_to_add += self._add_child_to_dr(new_rec)
+            num_bytes_to_add += self._add_child_to_dr(new_rec, continuation)
             num_bytes_to_add += self._update_rr_ce_entry(new_rec)
         else:
             if self.udf_root is None:
@@ -3306,6 +3299,7 @@ class PyCdlib:
                 num_bytes_to_add += self._add_hard_link_to_inode(ino, thislen,
                                                                  fmode,
                                                                  eltorito_catalog,
+                                                                 offset > 0,
                                                                  iso_new_path=iso_path,
                                                                  rr_name=rr_name)
 
@@ -3315,6 +3309,7 @@ class PyCdlib:
                 num_bytes_to_add += self._add_hard_link_to_inode(ino, thislen,
                                                                  fmode,
                                                                  eltorito_catalog,
+                                                                 offset > 0,
                                                                  joliet_new_path=joliet_path)
 
             # This goes after the hard link so we only track the new Inode if
@@ -3331,6 +3326,7 @@ class PyCdlib:
             num_bytes_to_add += self._add_hard_link_to_inode(ino, length,
                                                              fmode,
                                                              eltorito_catalog,
+                                                             False,
                                                              udf_new_path=udf_path)
 
         return num_bytes_to_add
@@ -4700,7 +4696,7 @@ class PyCdlib:
         num_bytes_to_add = self._add_hard_link_to_inode(old_rec.inode,
                                                         old_rec.get_data_length(),
                                                         fmode, boot_catalog_old,
-                                                        **kwargs)
+                                                        False, **kwargs)
 
         self._finish_add(0, num_bytes_to_add)
 
